@@ -96,6 +96,10 @@ func H_C30_history() {
 				state = indexStateFail
 			}
 			q.SetIndexed(c30Opts(id, ver), state)
+			if !ref.tracked[id] {
+				// nothing else is known about the repository: the options just reported are the last known ones
+				ref.ver[id] = ver
+			}
 			ref.tracked[id] = true
 			ref.failed[id] = fail
 			if !fail {
@@ -142,6 +146,20 @@ func H_C30_history() {
 			verifrt.Assert((q.get(i) != nil) == ref.tracked[i], "the queue tracks exactly the repositories it was told about and that still exist")
 		}
 		verifrt.Assert(q.Len() == nq, "queue length agrees with the model")
+		// representation invariant: heap positions are recorded, items off the heap say so, heap order holds
+		onHeap := 0
+		for i, it := range q.pq {
+			verifrt.Assert(it.heapIdx == i, "heapIdx is the item's position in the heap")
+			verifrt.Assert(q.items[it.repoID] == it, "every heap entry is a tracked item")
+			if i > 0 {
+				verifrt.Assert(!lessQueueItemPriority(it, q.pq[(i-1)/2]), "heap order: no child has priority over its parent")
+			}
+			onHeap++
+		}
+		for id, it := range q.items {
+			verifrt.Assert(it.repoID == id, "items are keyed by their repository id")
+			verifrt.Assert(it.heapIdx < 0 || (it.heapIdx < len(q.pq) && q.pq[it.heapIdx] == it), "an item's heapIdx is -1 or points at itself")
+		}
 		verifrt.Assert(len(q.items) == nt, "no stray tracked entries")
 	}
 	// drain: each enqueued repository is yielded once, in priority order
@@ -163,27 +181,59 @@ func H_C30_twin() {
 	verifrt.Assert(false, "twin")
 }
 
-// backoff: after k consecutive failures at time t the item is not allowed before
-// t + min((k)*d, max) and is allowed after it; Reset clears it.
+// backoff: after k consecutive failures, the last one at time t, the item is not allowed
+// before t + min(k*d, max) and is allowed after it; Reset clears it. d and max are
+// case-split over whole seconds (a symbolic duration would put a 64-bit division by 1e9
+// from time.Time.Add in front of the solver); instants, probe offsets and gaps are symbolic.
 func H_C30_backoff() {
-	d := time.Duration(verifrt.IntRange("d", 0, 1000)) * time.Second
-	max := time.Duration(verifrt.IntRange("max", 0, 5000)) * time.Second
-	b := backoff{backoffDuration: d, maxBackoff: max}
-	t0 := int64(verifrt.IntRange("t0", 1_600_000_000, 1_700_000_000))
-	fails := verifrt.Concretize(verifrt.IntRange("fails", 1, 3))
-	now := t0
+	dS := verifrt.Concretize(verifrt.IntRange("d", 0, verifrt.Param("dmax", 3, 5)))
+	maxS := verifrt.Concretize(verifrt.IntRange("max", 0, verifrt.Param("maxmax", 7, 12)))
+	b := backoff{backoffDuration: time.Duration(dS) * time.Second, maxBackoff: time.Duration(maxS) * time.Second}
+	now := int64(verifrt.IntRange("t0", 1_600_000_000, 1_700_000_000))
+	fails := verifrt.Concretize(verifrt.IntRange("fails", 1, verifrt.Param("fails", 3, 3)))
 	for i := 0; i < fails; i++ {
 		b.Fail(time.Unix(now, 0), sglog.NoOp(), IndexOptions{})
-		want := time.Duration(i+1) * d
-		if want > max {
-			want = max
+		wantS := (i + 1) * dS
+		if wantS > maxS {
+			wantS = maxS
 		}
-		probe := int64(verifrt.IntRange("probe", 0, 10000))
-		allowed := b.Allow(time.Unix(now+probe, 0))
-		verifrt.Assert(allowed == (time.Duration(probe)*time.Second > want), "Allow iff strictly later than the backoff deadline")
+		probe := verifrt.IntRange("probe", 0, 100)
+		allowed := b.Allow(time.Unix(now+int64(probe), 0))
+		verifrt.Assert(allowed == (probe > wantS), "Allow iff strictly later than the backoff deadline")
 		now += int64(verifrt.IntRange("gap", 0, 10000))
 	}
+	verifrt.Observe("allowedNow", b.Allow(time.Unix(now, 0)))
 	b.Reset()
 	verifrt.Assert(b.Allow(time.Unix(now, 0)), "Reset lifts the backoff")
+	verifrt.Reach("returned")
+}
+
+// backoffQueue: the queue consults the backoff on both re-enqueue paths. With a one hour
+// backoff a failed repository is not re-enqueued by AddOrUpdate or Bump while less than an
+// hour has passed, and a success lifts the backoff.
+func H_C30_backoffQueue() {
+	q := NewQueue(time.Hour, time.Hour, sglog.NoOp())
+	q.AddOrUpdate(c30Opts(1, 1))
+	it, ok := q.Pop()
+	verifrt.Assert(ok && it.Opts.RepoID == 1, "the added repository is yielded")
+	tA := time.Now()
+	q.SetIndexed(it.Opts, indexStateFail)
+	bump := verifrt.Bool("bump")
+	if bump {
+		q.Bump([]uint32{1})
+	} else {
+		q.AddOrUpdate(c30Opts(1, 2))
+	}
+	tB := time.Now()
+	verifrt.Assume(tB.Unix()-tA.Unix() < 3600)
+	verifrt.Assert(q.Len() == 0, "a failed repository is not re-enqueued during its backoff")
+	q.SetIndexed(c30Opts(1, 1), indexStateSuccess)
+	if bump {
+		q.Bump([]uint32{1})
+	} else {
+		q.AddOrUpdate(c30Opts(1, 1))
+	}
+	verifrt.Assert(q.Len() == 1, "a success lifts the backoff")
+	verifrt.Observe("len", q.Len())
 	verifrt.Reach("returned")
 }
